@@ -82,9 +82,9 @@ def _guard_cases(ctx, lines):
     e = [json.loads(l) for l in lines]
     for k, r in enumerate(e):
         if r["e"] == "OtfGroup":
-            ch = [n for n in range(len(r["y"])) if r["fx"][n] != r["y"][n] * 65536 and r["y"][n] != 0]
-            if ch:
-                mk("on-the-fly-group-bin-kept", k, lambda x, n=ch[0]: x["fx"].__setitem__(n, x["y"][n] * 65536), "on-the-fly-group")
+            ch = sorted((-abs(r["fx"][n] - r["y"][n] * 65536), n) for n in range(len(r["y"])) if r["y"][n] != 0)
+            if ch and -ch[0][0] > 32768:
+                mk("on-the-fly-group-bin-kept", k, lambda x, n=ch[0][1]: x["fx"].__setitem__(n, x["y"][n] * 65536), "on-the-fly-group")
                 break
     return cases
 
